@@ -45,6 +45,8 @@ func init() {
 			out = append(out, Instance{Scenario: "c08_rollback", Params: mustJSON(RollbackParams{}), Bound: 0, Shards: 8, Note: "a restart answered with a rollback: every event above the checkpointed position is delivered (the first unsettled one is not skipped)"})
 			out = append(out, Instance{Scenario: "c01_finite_end", Params: mustJSON(struct{}{}), Bound: 0, Note: "finite mode: streams end cleanly while acknowledgements are withheld, then save and exit"})
 			out = append(out, Instance{Scenario: "pipe", Params: mustJSON(PipeParams{Mode: "gen", Alphabet: []string{"M", "Mbefore", "Ebefore"}, Depth: 4, Ops: []string{"deliver0", "deliver1", "ackold", "commit"}, SkipUntil: true, CrashEnd: true}), Bound: 0, Shards: 4, Note: "skipUntil configured: events it removes never carry the position past an unacknowledged event"})
+			out = append(out, Instance{Scenario: "c02_twogroups", Params: mustJSON(struct{}{}), Bound: 0, Note: "two consumer groups in one process: the stored checkpoint of a group names a position THAT group's consumer settled"})
+			out = append(out, Instance{Scenario: "reopen_life", Params: mustJSON(LifeParams{Oracle: "position", Segs: 2}), Bound: 0, Shards: 8, Note: "events the server sends again after a transient end / fail-over / rollback while their first copies are still unacknowledged: the position (and the next save) stays at the furthest ACKNOWLEDGED event"})
 			out = append(out, Instance{Scenario: "c01_closewindow", Params: mustJSON(struct{}{}), Bound: 0, Note: "a save inside the close phase of a rebalance / shutdown while the server keeps sending: the stored position never passes a document the consumer was not shown"})
 			out = append(out, Instance{Scenario: "c01_concsave", Params: mustJSON(struct{}{}), Bound: 2, Shards: 8, Note: "the concurrent per-vBucket writes of one save under every schedule within the bound"})
 			out = append(out, Instance{Scenario: "pipe_tornfile", Params: mustJSON(struct{}{}), Bound: 0, Note: "crash inside os.WriteFile of the file backend: every prefix class of the JSON file"})
@@ -72,6 +74,8 @@ func init() {
 				{Scenario: "pipe", Params: mustJSON(PipeParams{Mode: "gen", Alphabet: []string{"M", "Mhighcas", "Dhighcas", "Mshort"}, Depth: d, Ops: ops}), Bound: 0, Shards: 4, Note: "CAS values with the top bit set; user keys that are proper prefixes of a reserved prefix"},
 				{Scenario: "pipe", Params: mustJSON(PipeParams{Mode: "gen", Alphabet: []string{"M", "Mhighcas", "Mbefore"}, Depth: d, Ops: ops, SkipUntil: true}), Bound: 0, Shards: 4, Note: "skipUntil with CAS values that have the top bit set (far in the future, never older)"},
 				{Scenario: "pipe", Params: mustJSON(PipeParams{Mode: "gen", Alphabet: coll, Depth: d + 1, Ops: ops, Colls: true}), Bound: 0, Shards: 8},
+				{Scenario: "pipe", Params: mustJSON(PipeParams{Mode: "gen", Alphabet: []string{"M", "Mc1", "Mresc1", "Dtxnc2", "Mres"}, Depth: d, Ops: ops, Colls: true}), Bound: 0, Shards: 4, Note: "keys under the reserved prefixes in NAMED collections (checkpoints / transaction records kept in a streamed collection) are filtered like in _default"},
+				{Scenario: "c03_ephemeral", Params: mustJSON(struct{}{}), Bound: 0, Note: "an ephemeral bucket (nothing is ever persisted; rollback mitigation is switched off for it although it is enabled in the configuration): the first session and the session after a rebalance deliver every event"},
 				{Scenario: "pipe", Params: mustJSON(PipeParams{Mode: "gen", Alphabet: append(append([]string{}, coll...), "Minfix", "Dinfix", "Mres"), Depth: d, Ops: ops, Colls: false}), Bound: 0, Shards: 4},
 				{Scenario: "c08_rollback", Params: mustJSON(RollbackParams{}), Bound: 0, Shards: 4, Note: "the documented rollback filter: nothing at or below the position already reached, everything above it"},
 				{Scenario: "c03_conc", Params: mustJSON(ConcParams{}), Bound: 2, Shards: 8, Note: "three vBuckets on two nodes streaming concurrently, all schedules within the bound"},
@@ -101,6 +105,7 @@ func init() {
 				out = append(out, Instance{Scenario: "pipe", Params: mustJSON(PipeParams{Mode: "script", Layout: l, Depth: d, Ops: ops, CrashEnd: true}), Bound: 0, Shards: 4})
 			}
 			out = append(out, Instance{Scenario: "pipe_malformed", Params: mustJSON(struct{}{}), Bound: 0})
+			out = append(out, Instance{Scenario: "c06_skipmalformed", Params: mustJSON(struct{}{}), Bound: 0, Note: "skipUntil configured + an event outside its snapshot that is older than skipUntil: no tracked / reported / stored offset leaves its snapshot"})
 			out = append(out, Instance{Scenario: "c12_finite", Params: mustJSON(FiniteParams{}), Bound: 0, Shards: 2, Note: "finite mode with a last snapshot that reaches past the end of the run: offsets carry the announced range"})
 			out = append(out, Instance{Scenario: "reopen_life", Params: mustJSON(LifeParams{Oracle: "tuple", Segs: 2, EarlySave: true}), Bound: 0, Shards: 8, Note: "the same with a save before the first re-open"})
 			out = append(out, Instance{Scenario: "reopen_life", Params: mustJSON(LifeParams{Oracle: "tuple", Segs: 2}), Bound: 0, Shards: 8, Note: "chains of transient ends and re-opens on changing history branches with late acknowledgements of earlier segments"})
@@ -485,6 +490,55 @@ func init() {
 				vrt.Failf("%s: after the re-open document 3 was not delivered", desc)
 			}
 			vrt.SetOutcome(fmt.Sprintf("%s|stored=%d shown3=%v", desc, st, shown3))
+		}}
+	}
+}
+
+// c06_skipmalformed: skipUntil is configured and the server sends an event that lies OUTSIDE its announced
+// snapshot and is older than skipUntil. Whatever the library does with it (stop, or drop it as "too old"), no
+// offset it tracks, reports or stores afterwards violates snapStart <= seqNo <= snapEnd.
+func init() {
+	scenarios["c06_skipmalformed"] = func(raw json.RawMessage) *vrt.Scenario {
+		return &vrt.Scenario{Name: "c06_skipmalformed", FreeChoices: true, NoTimerAlt: true, MaxSteps: 200000, Main: func() {
+			resetGlobals()
+			kind := []string{"mutation", "deletion", "expiration"}[vrt.Choose(3, true, "kind")]
+			where := vrt.Choose(3, true, "malformed-seq") // above the snapshot, below it, far above
+			t := skipT
+			o := EnvOpts{Vbs: 1, CheckpointType: "manual", WrapMeta: true, SkipUntil: &t}
+			c := NewCluster(&o)
+			bad := []uint64{25, 5, 1 << 40}[where]
+			old := docPacket(kind, bad, "old", "before", 0)
+			old.Raw = true
+			c.Append(0, marker(10, 20), docPacket("mutation", 10, "k10", "after", 0), old, docPacket("mutation", 12, "k12", "after", 0))
+			e := NewEnv(c, o)
+			e.Cons.AutoAck = true
+			e.Stream.Open()
+			c.WaitIdle()
+			vrt.Quiesce()
+			e.Stream.Save()
+			desc := fmt.Sprintf("snapshot [10,20], then a %s at seq %d (outside it) that is older than skipUntil", kind, bad)
+			vrt.SetOutcome(desc)
+			offs, _, _ := e.Stream.GetOffsets()
+			if o0, ok := offs.Load(0); ok && o0.SnapshotMarker != nil && o0.SeqNo != 0 && !(o0.StartSeqNo <= o0.SeqNo && o0.SeqNo <= o0.EndSeqNo) {
+				vrt.Failf("%s: the tracked offset is seq %d in snapshot [%d,%d]", desc, o0.SeqNo, o0.StartSeqNo, o0.EndSeqNo)
+			}
+			for _, s := range e.Cons.TrackSeq[0] {
+				if s == bad {
+					vrt.Failf("%s: the offset tracker was told position %d", desc, bad)
+				}
+			}
+			if d, ok := StoredDoc(c, srcBucket, e.O.Group, 0); ok && d.Checkpoint != nil && d.Checkpoint.Snapshot != nil && d.Checkpoint.SeqNo != 0 &&
+				!(d.Checkpoint.Snapshot.StartSeqNo <= d.Checkpoint.SeqNo && d.Checkpoint.SeqNo <= d.Checkpoint.Snapshot.EndSeqNo) {
+				vrt.Failf("%s: the stored checkpoint is seq %d in snapshot [%d,%d]", desc, d.Checkpoint.SeqNo, d.Checkpoint.Snapshot.StartSeqNo, d.Checkpoint.Snapshot.EndSeqNo)
+			}
+		}, Classify: func(r *vrt.Result) []string {
+			if r.Status == vrt.StatusCrash {
+				return nil // stopping the client is the documented reaction to an event outside its snapshot
+			}
+			if r.Status != vrt.StatusOK {
+				return []string{"execution ended with status " + r.Status.String()}
+			}
+			return nil
 		}}
 	}
 }
